@@ -6,6 +6,10 @@ import (
 )
 
 func GenerateConditional(conditional profile.ConditionalRule, iriExpander *misc.IriExpander) []BranchRegoResult {
+	if conditional.Negated && conditional.ElseIsDefined() {
+		// the two material implications below are a conjunction, a negated if/then/else is a disjunction
+		return GenerateOr(conditional.NegatedIfThenElse(), iriExpander)
+	}
 	thenMaterialImplication := conditional.ThenMaterialImplication()
 	var results = GenerateOr(thenMaterialImplication, iriExpander)
 	if conditional.ElseIsDefined() {
